@@ -24,6 +24,7 @@ RULE = ("one run = 1-4 instances of 1-2 tape-generated device classes with devic
         "be disjoint; strict alternation, no race is part of the property; distinct = "
         "distinct (declarations, values) digests; non-trivial = at least 2 rounds completed")
 RULE += '; since the 4th session device classes may compare equal by value and a refused out-of-range write follows a good one in 12 % of the writes'
+RULE += "; also parent-only variables stored while the child updates (the child runs between the lines of the library's store) and a first attempt to make the group that finds no shared memory"
 COMPONENTS = {
     "real": ["ebpfcat.ebpfcat.ProcessSyncGroup.start/subprocess_run/subprocess_loop/"
              "wait_for_process/get_array", "SimulatedEBPF.__init__, DeviceVar, "
